@@ -295,6 +295,18 @@ func Explore(sc *Scenario, deadline time.Time) (result Stats) {
 	if c1.err != "" || !sameRun(c1, c2, &r1, &r2) {
 		ex.st.EngineError = "NONDETERMINISM: default schedule replayed twice differs. " + c1.err + diffRun(&r1, &r2)
 		ex.st.Exhaustive = false
+		// The code under test keeps state between executions (a package-level cache, say), so nothing can be explored.
+		// If the default schedule violates the same clause both times all the same, that violation is real and
+		// reproduced: it is reported next to the engine error instead of being lost behind it.
+		if c1.err == "" && c2.err == "" {
+			f1, f2 := ex.verdict(&r1), ex.verdict(&r2)
+			if len(f1) > 0 && len(f2) > 0 && f1[0].Clause == f2[0].Clause {
+				ex.st.ViolationCnt++
+				ex.st.Violations = append(ex.st.Violations, Violation{Scenario: sc.Name, Clause: f2[0].Clause,
+					Msg: f2[0].Msg + " (in both runs of the default schedule; the two runs differ from each other: the code under test keeps state between executions)",
+					Choices: nil, Obs: r2.Obs, Trace: r2.Trace, Alive: r2.Alive, Panic: r2.Panic, All: f2})
+			}
+		}
 		return ex.st
 	}
 	if os.Getenv("VS_DEBUG_POINTS") != "" {
